@@ -866,7 +866,10 @@ def parse_insn_operand(ctx, insn_name, operand_idx, **kwargs):
     else:
         operand_type = int
 
-    assert operand_type in (str, int)
+    if operand_type not in (str, int):
+        # E.g. the code block parameter of '.repeat' reached through a comma
+        # ('.repeat 2, { ... }'): whatever stands here is read as an expression
+        operand_type = int
 
     if operand_type is str:
         return long_string(ctx, **kwargs)
